@@ -243,15 +243,15 @@ func (self Value) FieldByName(name string) (v Value) {
 	}
 	for it.HasNext() {
 		i, t, s, e := it.Next(UseNativeSkipForGet)
-		if i == f.ID() {
+		if it.Err != nil {
+			v = errValue(meta.ErrRead, "", it.Err)
+			goto ret
+		} else if i == f.ID() {
 			if t != f.Type().Type() {
 				v = errValue(meta.ErrDismatchType, fmt.Sprintf("field '%s' expects type %s, buf got type %s", f.Name(), f.Type().Type(), t), nil)
 				goto ret
 			}
 			v = self.slice(s, e, f.Type())
-			goto ret
-		} else if it.Err != nil {
-			v = errValue(meta.ErrRead, "", it.Err)
 			goto ret
 		}
 	}
